@@ -189,7 +189,7 @@ impl AckId {
 // per-pair body of parse_deadline_modifications (the closure passed to `.map`), lifted as a region
 //@item src/subscriptions/pulled_message.rs struct AckDeadline drop-derive=Hash,PartialEq,Eq,PartialOrd,Ord
 //@hoisted src/subscriptions/pulled_message.rs AckDeadline::new
-pub open spec fn grid_ns() -> int { 100_000_000 }
+pub open spec fn grid_ns() -> int { 1_000_000_000 }
 impl AckDeadline {
     pub closed spec fn t(&self) -> int { self.time.v() }
     // proved in bundle B1 against the same contract; repeated here so that the caller below is checked against it
